@@ -332,6 +332,21 @@ def mutate(rng, root, layout, info, klass):
         else:
             layout['mans'][m]['entries'].insert(0, dup)
         rec['path'] = mtext.full_path(os.path.dirname(m), e)
+    elif klass == 'm-manifest-as-data-only':
+        # a sub-Manifest that its parent lists, correctly, but with a DATA entry
+        # instead of a MANIFEST one (legal; verification treats it as a file)
+        cands = [(m, e) for m, md in layout['mans'].items()
+                 for e in md['entries'] if e['tag'] == 'MANIFEST'
+                 and e.get('_auto') is not None
+                 and os.path.dirname(mtext.full_path(os.path.dirname(m), e))
+                 != os.path.dirname(m)
+                 and os.path.basename(e['path']) in
+                 ['Manifest'] + ['Manifest.' + x for x in mtext.SUFFIXES]]
+        if not cands:
+            return None
+        m, e = rng.choice(cands)
+        e['tag'] = 'DATA'
+        rec['path'] = mtext.full_path(os.path.dirname(m), e)
     elif klass == 'm-manifest-dup-wrong':
         # sub-Manifest X registered twice: correctly (hash set H1) in the top-level
         # Manifest, through which it gets loaded, and wrongly (disjoint hash set) in
